@@ -7,7 +7,7 @@
    (each costs ~1 s) small.  Part 2 (rounding kernels, nextafter) is Properties_rounding.v. *)
 From Coq Require Import ZArith Bool.
 From Flocq Require Import Core BinarySingleNaN.
-From Tetl Require Import Lib.Base C16.Model C16.Spec C16.ProofsBasic C16.ProofsRefuted.
+From Tetl Require Import Lib.Base C16.Model C16.Spec C16.ProofsBasic C16.ProofsBits C16.ProofsRefuted.
 Local Open Scope Z_scope.
 
 Section AnyFormat.
@@ -29,11 +29,11 @@ Qed.
 (* abs / fabs (abs_impl after a3c791a), gcem abs, copysign_fallback (after 869bd40; constant
    evaluation and long double) *)
 Theorem C16_fabs_copysign_exact : forall x y : fl,
-  e_abs prec emax Hp Hpe x = spec_fabs prec emax x /\
+  e_abs prec emax x = spec_fabs prec emax x /\
   g_abs prec emax Hp Hpe x = spec_fabs prec emax x /\
   e_copysign_fb prec emax x y = spec_copysign prec emax x y.
 Proof.
-  intros x y. exact (conj (e_abs_exact prec emax Hp Hpe x) (conj (g_abs_exact prec emax Hp Hpe x)
+  intros x y. exact (conj (e_abs_exact prec emax x) (conj (g_abs_exact prec emax Hp Hpe x)
                                                                   (e_copysign_fb_exact prec emax x y))).
 Qed.
 
@@ -63,6 +63,29 @@ Print Assumptions C16_fmin_fmax_fdim_exact.
 Print Assumptions C16_fabs_copysign_exact.
 Print Assumptions C16_classification_exact.
 Print Assumptions C16_hypot_special_exact.
+
+(* the sign-bit operations on the RAW encoding of any width w (binary32: 32, binary64: 64, x87: 80):
+   abs_impl (abs / fabs after 5451ca8), copysign_fallback and signbit_fallback set / copy / read
+   bit w-1 and nothing else for EVERY bit pattern - NaNs of either sign and any payload included
+   (IEC 60559 5.5.1: abs and copySign are sign-bit operations also on NaNs; the theorems above
+   identify all NaNs and cannot see this) *)
+Theorem C16_sign_ops_raw_exact : forall w, 1 <= w -> forall x y, 0 <= x < 2 ^ w -> 0 <= y < 2 ^ w ->
+  raw_e_abs w x = spec_raw_fabs w x /\
+  raw_e_copysign_fb w x y = spec_raw_copysign w x y /\
+  raw_signbit w x = spec_raw_signbit w x /\
+  raw_e_signbit_fb w x = spec_raw_signbit w x.
+Proof.
+  intros w Hw x y Hx Hy.
+  exact (conj (proj1 (raw_e_abs_exact w Hw x Hx)) (conj (raw_e_copysign_fb_exact w Hw x y Hx Hy)
+              (raw_signbit_exact w Hw x Hx))).
+Qed.
+Print Assumptions C16_sign_ops_raw_exact.
+(* non-vacuity: fabs of the positive and of the negative binary32 quiet NaN is the positive one;
+   copysign(+NaN, -1.0f) is the negative NaN *)
+Example C16_sign_ops_raw_nonvacuous :
+  raw_e_abs 32 2143289344 = 2143289344 /\ raw_e_abs 32 4290772992 = 2143289344 /\
+  raw_e_copysign_fb 32 2143289344 3212836864 = 4290772992.
+Proof. vm_compute. repeat split. Qed.
 
 (* signbit_fallback (after a32acd7): the top bit of the bit pattern is the IEEE sign *)
 Theorem C16_signbit_fallback_exact :
